@@ -130,9 +130,9 @@ func (s *rvStream) Write(p []byte) (int, error) {
 		return len(p), nil
 	}
 	g := s.gen
-	t := time.AfterFunc(s.wait, func() { s.mu.Lock(); s.cond.Broadcast(); s.mu.Unlock() })
-	deadline := time.Now().Add(s.wait)
-	for s.gen == g && time.Now().Before(deadline) {
+	timedOut := false
+	t := time.AfterFunc(s.wait, func() { s.mu.Lock(); timedOut = true; s.cond.Broadcast(); s.mu.Unlock() })
+	for s.gen == g && !timedOut {
 		s.cond.Wait()
 	}
 	if s.gen == g { // nobody came: do not pair this call with a later one
@@ -812,6 +812,9 @@ func runC10(res *hx.Result, rng *hx.Rng, tier string, outdir string) {
 	}
 	for _, s := range out.Samples {
 		res.Sample(s)
+	}
+	if tier == "thorough" {
+		raceChild(res, outdir, "C10.child", nil, "concurrent senders over all transports, dispatch scripts and registration/removal rounds")
 	}
 	cf := hx.NewCases(outdir, "C10", "From QV Require Import Reader Message Endpoint C17Run C10Run.", "C10Run.mismatches scases dcases", res,
 		"scases", "scase", "dcases", "ocase")
